@@ -19,6 +19,11 @@ for i in sorted(os.listdir(os.path.join(V, "seeded"))):
         state = {1: "caught", 2: "undecided", 0: "missed"}.get(r["exit"], str(r["exit"]))
         res.append(f"{p}: {state}" + (f" (`{ob}`)" if ob and state == "caught" else ""))
     conf = m.get("confirmed") or {}
+    if m.get("harmless_since"):
+        # a change that stopped breaking the property once a fix: commit landed: the right outcome is exit 0
+        res = [x.replace("missed", "accepted (correct: no alarm on a harmless change)").replace("caught", "FALSE ALARM") for x in res]
+        rows.append((i, "harmless since " + m["harmless_since"][:120], what.replace("|", "/"), "; ".join(res) or "not run"))
+        continue
     rows.append((i, "yes" if conf.get("ok") else "NO", what.replace("|", "/"), "; ".join(res) or "not run"))
 out = ["## 10. Seeded changes: which checks catch which", "",
        "Each change was written by a fresh sub-agent that was given only the property text and its own scratch worktree (nothing from /verif). "
@@ -29,11 +34,15 @@ out = ["## 10. Seeded changes: which checks catch which", "",
        "| id | confirmed | what it needs to manifest (author's words, first line) | outcome per check |", "|---|---|---|---|"]
 for r in rows:
     out.append("| " + " | ".join(r) + " |")
-n = len(rows)
+n = len([r for r in rows if not r[1].startswith("harmless")])
+harmless = [r for r in rows if r[1].startswith("harmless")]
+rows_all = rows
+rows = [r for r in rows if not r[1].startswith("harmless")]
 caught = sum(1 for r in rows if "caught" in r[3])
 und = sum(1 for r in rows if "caught" not in r[3] and "undecided" in r[3])
 miss = sum(1 for r in rows if "caught" not in r[3] and "undecided" not in r[3] and "missed" in r[3])
-out += ["", f"Totals: {n} seeded changes; {caught} caught by at least one check, {und} undecided only, {miss} missed.", ""]
+out += ["", f"Totals: {n} property-breaking seeded changes; {caught} caught by at least one check, {und} undecided only, {miss} missed. "
+        f"{len(harmless)} further change(s) became harmless after a fix: commit and are accepted by the checks ({sum(1 for r in harmless if 'FALSE ALARM' in r[3])} false alarms).", ""]
 p = os.path.join(V, "DESIGN.md")
 s = open(p).read()
 if "## 10. Seeded changes" in s:
